@@ -713,7 +713,7 @@ class ShimNP:
         return LazyArr(tuple(shape), lambda idx: f.get(_bcast_index(list(idx), tuple(shape), ashape)), a.kind, a.dtype)
 
     def arange(self, *a, **kw):
-        if not self._lazy(*a):
+        if not self._lazy(*a) and not (ALWAYS_LAZY[0] and len(a) == 1 and not kw):
             return real_np.arange(*a, **kw)
         if len(a) == 1:
             start, stop, step = 0, a[0], 1
